@@ -668,6 +668,13 @@ func (c *Ctx) evalWith(e ast.Expr, obj types.Object, val constant.Value) (consta
 		if v, ok := evalEnv[c.Obj(x)]; ok {
 			return v, true
 		}
+	case *ast.SelectorExpr:
+		// X.t with the type tag of the value under analysis bound by the caller
+		if x.Sel.Name == "t" {
+			if v, ok := evalEnv[tagOfOperand]; ok {
+				return v, true
+			}
+		}
 	case *ast.UnaryExpr:
 		v, ok := c.evalWith(x.X, obj, val)
 		if !ok {
@@ -2119,3 +2126,6 @@ func (c *Ctx) normSliceIdx(e ast.Expr) string {
 	})
 	return out
 }
+
+// tagOfOperand: key of evalEnv under which a rule binds "the type tag (.t) of the operand".
+var tagOfOperand = types.NewVar(token.NoPos, nil, "#operand.t", types.Typ[types.Int])
